@@ -12,6 +12,8 @@ mod hooks;
 mod mpcrun;
 mod schema;
 mod shard;
+mod srv;
+mod srvx;
 mod util;
 
 #[global_allocator]
